@@ -203,6 +203,10 @@ def queries(tier):
         seqs += [(['insert', 'insert', 'insert'], [2, 1, ('flip', 0)]), (['insert_raw', 'insert', 'remove'], [2, 2, ('flip', 0)]),
                  (['insert', 'insert', 'insert'], [1, 1, 1]), (['insert_raw', 'insert'], [2, 2]), (['insert', 'insert'], [2, 2]), (['insert'], [4]),
                  (['insert', 'insert'], [('pre', b'A', 2), ('pre', b'a', 2)]), (['insert', 'insert'], [('pre', b'a', 2), ('pre', b'A', 2)])]
+    # raw values long enough to be hex pairs in either letter case
+    for ops, al in ((['insert_raw'], [1]), (['insert_raw', 'insert_raw'], [1, ('flip', 0)]), (['insert', 'insert_raw'], [1, ('flip', 0)])):
+        qs.append(Query('typed %s alg=%s raw=⟦2⟧' % ('+'.join(ops), al), h_seq, {'ops': ops, 'alen': al, 'vlen': 2},
+                        bound='%s with raw values of 2 free bytes (hex in either case, or not hex)' % (ops,)))
     for ops, al in seqs:
         for vl in ((0, 1, 2) if th else (1,)):
             if (len(ops) > 2 or any(isinstance(x, tuple) or x >= 2 for x in al)) and vl > 1:
